@@ -212,6 +212,20 @@ def check_modes(ctx, Z, aotools, N, rng, jcount):
     return gerr, nmax
 
 
+def check_rotated_gram(ctx, Z, N, rng):
+    """A rotated basis is still orthonormal (whatever `rot` means exactly): same bound as the unrotated Gram matrix."""
+    J = int(rng.integers(6, 37))
+    rot = float(rng.uniform(0.2, 2.9) * rng.choice([-1, 1]))
+    A = Z.zernikeArray(J, N, rot=rot)
+    nmax = max(noll_direct(j)[0] for j in range(1, J + 1))
+    G = np.einsum("aij,bij->ab", A, A) / (np.pi * (N / 2.0) ** 2)
+    gerr = float(np.abs(G - np.eye(J)).max())
+    ctx.case("gram_rotated", key=(N, J, rot), nontrivial=True, sample={"N": N, "J": J, "rot": rot, "max|G-I|": gerr})
+    ctx.metric("gram_rotated_err*N/(n_max+1)", gerr * N / (nmax + 1))
+    ctx.check(gerr <= 8.0 * (nmax + 1) / N, "gram:bound:rotated", "rotated basis: max |G - I| = %.4f > 8 (n_max+1)/N = %.4f" % (gerr, 8.0 * (nmax + 1) / N),
+              {"N": N, "J": J, "rot": rot})
+
+
 def check_list_and_combination(ctx, Z, N, rng):
     J = int(rng.integers(3, 40))
     for norm in ("noll", "rms", "p2v"):
@@ -295,9 +309,11 @@ def run(ctx, spec):
     sizes = [N for N in list(range(8, 66)) + [128, 256] if N % spec["n_shards"] == spec["shard"]]
     for rep in range(spec["reps"]):
         for N in sizes:
-            jcount = 231 if (N >= 64 and spec["shard"] % 4 == 0 and rep == 0) else int(rng.integers(6, 67))
+            jcount = (231 if spec["shard"] % 8 else 300) if (N >= 64 and spec["shard"] % 4 == 0 and rep == 0) else int(rng.integers(6, 67))
             check_modes(ctx, Z, aotools, N, rng, jcount)
             check_list_and_combination(ctx, Z, N, rng)
+            if N >= 48:
+                check_rotated_gram(ctx, Z, N, rng)
     # Gram ladder: the error decreases as the grid is refined
     if spec["shard"] == 1:
         errs = []
